@@ -511,10 +511,22 @@ def list_repeat(l, n):
     return Val(l.kind, [if_(n > 0, n, z3.IntVal(0))] + arrs)
 
 
+_concat_memo = {}
+
+
 def list_concat(a, b):
     k = KList(join_kinds(a.kind.elem, b.kind.elem))
     a, _ = coerce(a, k)
     b, _ = coerce(b, k)
+    key = (k, tuple(t.get_id() for t in a.terms), tuple(t.get_id() for t in b.terms))
+    if key in _concat_memo:
+        return _concat_memo[key][0]       # the same operands give the very same term (lemma instances must match)
+    r = _list_concat(a, b, k)
+    _concat_memo[key] = (r, a, b)
+    return r
+
+
+def _list_concat(a, b, k):
     i = z3.Int(uid("cc"))
     na = a.terms[0]
     arrs = [z3.Lambda([i], z3.If(i < na, z3.Select(x, i), z3.Select(y, i - na))) for x, y in zip(a.terms[1:], b.terms[1:])]
